@@ -70,7 +70,7 @@ def _body(case, ctx):
         want_v = V[:, None] + np.cross(Om, r.T).T
         if dim == 2:
             want_v[2] = 0.0
-        vs = np.abs(V).max() + np.linalg.norm(Om) * (np.abs(r).max() + 1e-300)
+        vs = np.abs(V).max() + np.linalg.norm(Om) * (np.abs(r).max() + np.abs(X).max() + 1e-300)
         _close(v0, want_v, 64 * eps * (vs + 1e-300), f"{kind}: marker velocity")
         # geometry: markers at the body radius / in the plane
         geom = case["geom"]
@@ -121,7 +121,8 @@ def _body(case, ctx):
     Oe = np.stack([Qc[:, :, e].T @ rod.omega_collection[:, e] for e in range(rod.n_elems)], axis=1)
     n_el = rod.n_elems
     xs = np.abs(xn).max() + 1e-300
-    vs = np.abs(vn).max() + np.abs(Oe).max() * rod.radius.max() + 1e-300
+    # marker offsets are differences of positions (rounding eps*|x|), so Omega x offset carries |Omega| eps |x|
+    vs = np.abs(vn).max() + np.abs(Oe).max() * (rod.radius.max() + xs) + 1e-300
     if kind.startswith("rod_nodal"):
         if g.position_field.tobytes() != xn[:dim].tobytes() or g.velocity_field.tobytes() != vn[:dim].tobytes():
             raise Violation("nodal grid does not coincide bit-wise with node positions/velocities")
